@@ -33,6 +33,7 @@ type Run struct {
 	Cmds     int
 	Resyncs  int
 	agents   []string
+	nsnap    int
 	violScen [][]Step // crash sweeps: the scenario demonstrating each violation
 	// options
 	NoObs bool // skip per-step observation (throughput runs)
@@ -83,13 +84,7 @@ func (r *Run) InitStore() {
 	if p.ExitCode != 0 {
 		harnessf("ergo init failed: %s", p.Stderr)
 	}
-	dir := filepath.Join(r.W.Proj, ".ergo")
-	switch r.Sc.Config.Layout {
-	case "legacy":
-		os.Rename(filepath.Join(dir, "plans.jsonl"), filepath.Join(dir, "events.jsonl"))
-	case "nolock":
-		os.Remove(filepath.Join(dir, "lock"))
-	}
+	r.setupLayout()
 }
 
 func (r *Run) observe() *Obs {
@@ -144,6 +139,11 @@ func (r *Run) dirArg(c Cmd) string {
 
 func (r *Run) spec(c Cmd) ProcSpec {
 	argv, stdin := c.Render(r.M.Resolve, r.dirArg(c))
+	for i, a := range argv {
+		if a == "$PROJ" {
+			argv[i] = r.W.Proj
+		}
+	}
 	if stdin == nil && c.Op != "init" {
 		// flags-only input needs a stdin that is "not piped": /dev/null is a character device
 	}
@@ -322,6 +322,17 @@ func (r *Run) DoCmd(c Cmd) *Proc {
 		}
 	}
 
+	if c.IsRead() && r.Sc.Prop == "C12" {
+		// the same log always produces byte-identical output
+		for rep := 0; rep < 5; rep++ {
+			so, se, code := r.W.RunPlain(r.spec(c).Argv, nil, r.cwdFor(c))
+			r.W.Count.Inc("c12.repeat_reads")
+			if code != p.ExitCode || !bytes.Equal(so, p.Stdout) || !bytes.Equal(se, p.Stderr) {
+				r.viol("C12", "nondeterministic-read", c.Op, "%s answered differently on the same log: exit %d/%d stdout %s / %s", shape, p.ExitCode, code, q(string(p.Stdout)), q(string(so)))
+				break
+			}
+		}
+	}
 	post := r.observe()
 	logChanged := !bytes.Equal(pre.LogBytes, post.LogBytes)
 
@@ -947,6 +958,22 @@ func (r *Run) DoDisk(d *DiskOp) {
 				os.WriteFile(lp, b[:len(b)-n], 0o644)
 				r.W.Count.Inc("fault.tail_torn")
 				r.Faults++
+			}
+		}
+	case "legacy_task":
+		// an item as an old ergo version recorded it: no title, the title
+		// lives in the body (optionally under a markdown heading)
+		bodies := []string{"Fix the flaky test\nmore detail", "## Goal\nShip the thing\n\n- a\n- b", "# Only a heading", "   \n\nLate title line", ""}
+		body := bodies[d.N%len(bodies)]
+		ts := fmtTS(r.W.Clock.Next())
+		data, _ := json.Marshal(map[string]any{"id": d.Arg, "uuid": fmt.Sprintf("00000000-0000-4000-8000-%012d", d.N), "epic_id": "", "state": "todo", "title": "", "body": body, "created_at": ts})
+		line := fmt.Sprintf(`{"type":"new_task","ts":%q,"data":%s}`+"\n", ts, data)
+		if b, err := os.ReadFile(lp); err == nil && (len(b) == 0 || b[len(b)-1] == '\n') && !bytes.Contains(b, []byte(`"id":"`+d.Arg+`"`)) {
+			f, err := os.OpenFile(lp, os.O_APPEND|os.O_WRONLY, 0o644)
+			if err == nil {
+				f.WriteString(line)
+				f.Close()
+				r.W.Count.Inc("fault.legacy_item")
 			}
 		}
 	case "tail_fragment":
